@@ -6,6 +6,7 @@ import (
 	"fmt"
 	"go/token"
 	"go/types"
+	"os"
 	"strings"
 
 	"golang.org/x/tools/go/ssa"
@@ -948,6 +949,8 @@ func (in *Interp) getArgs(fr *frame, xs []ssa.Value, args []Value) []Value {
 	return args
 }
 
+var traceCalls = os.Getenv("VERIF_TRACECALLS") != ""
+
 func (in *Interp) call(caller *frame, fn Value, args []Value) Value {
 	switch fn := fn.(type) {
 	case *ssa.Function:
@@ -998,6 +1001,9 @@ func (in *Interp) callSSA(caller *frame, fn *ssa.Function, args []Value, env []V
 	}
 	if in.inInit == 0 && !in.entered[fn] {
 		in.entered[fn] = true
+	}
+	if traceCalls && in.inInit == 0 {
+		fmt.Fprintf(os.Stderr, "CALL %*s%s\n", depth, "", fn.String())
 	}
 	fr := &frame{in: in, caller: caller, fn: fn, depth: depth}
 	fr.env = make(map[ssa.Value]Value, 16)
